@@ -1,5 +1,5 @@
 """C49 -- Integer relation builtins (between/3, succ/2, length/2, numlist/3) enumerate exactly their relations."""
-import json
+import json, re
 from vlib import core, terms
 
 META = {
@@ -17,6 +17,8 @@ META = {
              "window (64 rounds of enumerate_ints, 512 steps of diag_nats) of the candidate order of gen_ints/2; soundness of those modes is "
              "proved, completeness only for the candidate order of one unbound bound (gen_int_complete); the diagonal order of two unbound "
              "bounds is compared but not proved complete. resource_error(memory) for lists above 2^40 cells is a modelling constant. "
+             "Non-termination of the queries with an unbound numlist bound is detected with scryer's own call_with_inference_limit/3 (100000 inferences; "
+             "trusted to be transparent for solutions); a query that raises an error is run again without it because the ball does not survive the wrapper. "
              "Queries expected to raise resource_error(memory) run on a fresh Machine because a re-used lib_machine Machine garbles that ball "
              "(reported separately, not this property)."),
     "technique": ("Coq proof (between_enum_exact, numlist_spec, succ_spec, length_spec, errors_per_mode) over an impl-mirror model + "
@@ -66,11 +68,16 @@ def is_var(t): return t[0] == "var"
 FEW = [V, ("int", 1), ("atom", "a")]
 
 
-def gen_between():
+def gen_between(ctx):
     out = []
     for L in ARGS:
         for H in ARGS:
-            for X in (ARGS if is_int(L) and is_int(H) else FEW):
+            if is_int(L) and is_int(H):
+                small = abs(L[1]) < 10 and abs(H[1]) < 10
+                xs = ARGS if small or ctx.thorough else [("int", n) for n in [-3, 0, 5] + BIG] + NONINT
+            else:
+                xs = FEW
+            for X in xs:
                 a = name_vars([L, H, X], ["L", "H", "X"])
                 out.append(Case("between", a, [v[1] for v in a if is_var(v)], {"L": 0, "H": 1, "X": 2},
                                 nontrivial=is_int(a[0]) and is_int(a[1]) and (is_int(a[2]) or is_var(a[2]))))
@@ -138,7 +145,7 @@ def gen_numlist(ctx):
                     if all(is_int(x) or is_var(x) for x in a[:2]): continue
                 if len(ints) == 2 and ints[1] - ints[0] > 1000: continue
                 both_ok = all(is_int(x) or is_var(x) for x in a[:2])
-                # an unbound bound makes gen_ints/2 an endless generator: those queries run alone with a short timeout
+                # an unbound bound makes gen_ints/2 an endless generator: those queries run under call_with_inference_limit/3
                 slow = unbound and both_ok
                 out.append(Case("numlist", a, [v for v in terms.term_vars(("cmp", "t", a))], vn, slow=slow, nontrivial=both_ok))
     return out
@@ -169,6 +176,9 @@ def observe(case, result):
     for j, a in enumerate(ans):
         if a[0] == "true":
             rows.append([]); txt.append("true")
+        elif a[0] == "sol" and a[1].get("Lim") == ("atom", "inference_limit_exceeded"):
+            end, kind = "ETimeout", "timeout"; txt.append("<no termination: inference limit %d exceeded>" % LIMIT)
+            break
         elif a[0] == "sol":
             vals = [a[1].get(v, ("atom", "$unbound")) for v in case.interest]
             vals = terms.number_vars(vals)
@@ -190,41 +200,58 @@ def observe(case, result):
     return coq, " ; ".join(txt) if txt else "false", kind, len(rows)
 
 
-def run_impl(ctx, cases):
-    jobs, solo = [], []
-    batch, nb = [], 0
+LIMIT = 100000
+
+
+def wrapped(case):
+    """the query under call_with_inference_limit/3 (library(iso_ext)): a deterministic non-termination detector"""
+    return "call_with_inference_limit(%s, %d, Lim)." % (case.query[:-1], LIMIT)
+
+
+def clean_wrapped(result):
+    """True when the wrapped run consists of solutions / false / more only (an exception raised inside
+    call_with_inference_limit/3 does not come out intact: such queries are run again without the wrapper)."""
+    if not isinstance(result, list): return False
+    for a in result:
+        if a in ("false", "more"): continue
+        if isinstance(a, dict) and "b" in a and a["b"].get("Lim", {}).get("a") in ("true", "!", "inference_limit_exceeded"): continue
+        return False
+    return True
+
+
+def run_batches(ctx, cases, items, tag):
+    """items: list of (case index, query text, fresh). -> {case index: result}"""
+    jobs, batch = [], []
     def flush():
-        nonlocal batch, nb
+        nonlocal batch
         if batch:
-            jobs.append({"id": "b%d" % nb, "consult": LIBS, "queries": [cases[i].query for i in batch], "max_answers": K,
-                         "timeout_ms": 20000, "idx": batch})
-            nb += 1; batch = []
-    for i, c in enumerate(cases):
-        if c.slow:
-            solo.append({"id": "s%d" % i, "consult": LIBS, "queries": [c.query], "max_answers": K, "timeout_ms": 300, "idx": [i]})
-        elif c.fresh:
-            jobs.append({"id": "f%d" % i, "consult": LIBS, "queries": [c.query], "max_answers": K, "timeout_ms": 20000, "fresh": True, "idx": [i]})
+            jobs.append({"id": "b%d" % len(jobs), "consult": LIBS, "queries": [q for _, q in batch], "max_answers": K, "timeout_ms": 30000,
+                         "idx": [i for i, _ in batch]})
+            batch = []
+    for i, q, fresh in items:
+        if fresh:
+            jobs.append({"id": "f%d" % len(jobs), "consult": LIBS, "queries": [q], "max_answers": K, "timeout_ms": 30000, "fresh": True, "idx": [i]})
         else:
-            batch.append(i)
+            batch.append((i, q))
             if len(batch) >= 60: flush()
     flush()
-    idx = {j["id"]: j.pop("idx") for j in jobs + solo}
-    res = core.vrun_query(ctx.prop, jobs, tag="impl")
-    # The watchdog of one vrun process delivers only its first timeout reliably, and a query that does not terminate is
-    # the expected observation for some of these: one query per process, 4*NPROC processes at a time.
-    step = 4 * core.NPROC
-    for r in range(0, len(solo), step):
-        part = solo[r:r + step]
-        res.update(core.vrun_query(ctx.prop, part, nproc=len(part), tag="solo"))
-    out = [None] * len(cases)
+    idx = {j["id"]: j.pop("idx") for j in jobs}
+    res = core.vrun_query(ctx.prop, jobs, tag=tag)
+    out = {}
     for jid, ids in idx.items():
         r = res.get(jid)
         rs = r.get("results") if r else None
-        if r and r.get("hang"):
-            rs = [[{"err": {"c": ["error", {"a": "$interrupt_thrown"}, {"a": "hang"}]}}]] * len(ids)
         for k, i in enumerate(ids):
             out[i] = rs[k] if isinstance(rs, list) and k < len(rs) else None
     return out
+
+
+def run_impl(ctx, cases):
+    first = run_batches(ctx, cases, [(i, wrapped(c) if c.slow else c.query, c.fresh) for i, c in enumerate(cases)], "impl")
+    again = [i for i, c in enumerate(cases) if c.slow and not clean_wrapped(first.get(i))]
+    if again:
+        first.update(run_batches(ctx, cases, [(i, cases[i].query, False) for i in again], "impl2"))
+    return [first.get(i) for i in range(len(cases))], len(again)
 
 
 def failure_key(case, kind, nans, answers_agree=False):
@@ -243,10 +270,8 @@ def failure_key(case, kind, nans, answers_agree=False):
 
 
 def run(ctx):
-    cases = gen_between() + gen_succ() + gen_length(ctx) + gen_numlist(ctx)
-    if not ctx.thorough:
-        pass    # the quick tier already runs the whole argument set
-    impl = run_impl(ctx, cases)
+    cases = gen_between(ctx) + gen_succ() + gen_length(ctx) + gen_numlist(ctx)
+    impl, n_again = run_impl(ctx, cases)
     bools, info = [], []
     dist = {"pred": {}, "ending": {}, "answers": {}}
     for c, r in zip(cases, impl):
@@ -257,37 +282,43 @@ def run(ctx):
         dist["ending"][kind] = dist["ending"].get(kind, 0) + 1
         b = "0" if nans == 0 else "1" if nans == 1 else "2-19" if nans < K else "20"
         dist["answers"][b] = dist["answers"].get(b, 0) + 1
-    bad, errs = core.coq_eval_bools(ctx.prop, IMPORTS, bools, chunk=500)
+    # for the queries that did not terminate: do the answers produced before agree with the model's complete answer list?
+    tmo = [i for i in range(len(cases)) if info[i][1] == "timeout"]
+    extra = [bools[i].replace(" ETimeout)", " EEnd)") for i in tmo]
+    bad_all, errs = core.coq_eval_bools(ctx.prop, IMPORTS, bools + extra, chunk=500)
+    bad = [i for i in bad_all if i < len(bools)]
+    agree = set(tmo) - set(tmo[j - len(bools)] for j in bad_all if j >= len(bools))
     tie_breaks = [{"kind": "coq-eval", "what": "model evaluation shard failed", "detail": t[-1500:]} for _, t in errs]
     failures, perkey = [], {}
     model_fn = {"between": "between_model K", "succ": "succ_model", "length": "length_model K", "numlist": "numlist_model WIN K"}
-    # for the queries that did not terminate: do the answers produced before agree with the model's complete answer list?
-    tmo = [i for i in bad if info[i][1] == "timeout"]
-    agree = set()
-    if tmo:
-        b2, e2 = core.coq_eval_bools(ctx.prop, IMPORTS, [bools[i].replace(" ETimeout)", " EEnd)") for i in tmo], chunk=100, tag="tmo")
-        tie_breaks += [{"kind": "coq-eval", "what": "model evaluation shard failed", "detail": t[-1500:]} for _, t in e2]
-        agree = set(tmo) - set(tmo[j] for j in b2)
     for i in bad:
         c = cases[i]; txt, kind, nans = info[i]
         key = failure_key(c, kind, nans, i in agree)
         perkey[key] = perkey.get(key, 0) + 1
         if perkey[key] > 2 or len(failures) >= 14:
             continue
-        spec = core.coq_eval_show(ctx.prop, IMPORTS, "observe K (%s %s)" % (model_fn[c.pred], c.coq))
         failures.append({"key": key, "what": "answer sequence / termination / error formal differs from the relation model",
-                         "input": c.query, "impl": txt[:400], "spec": spec[:600], "property_fails": True})
+                         "input": wrapped(c) if c.slow and kind == "timeout" else c.query, "impl": txt[:400],
+                         "spec": "observe K (%s %s)" % (model_fn[c.pred], c.coq), "property_fails": True})
+    if failures:
+        # one coqc run prints the model's observation for all reported failures
+        shown = core.coq_eval_show(ctx.prop, IMPORTS, "[%s]" % "; ".join(f["spec"] for f in failures))
+        parts = re.findall(r"\{\|.*?\|\}", shown)
+        for k, f in enumerate(failures):
+            f["spec"] = parts[k][:600] if len(parts) == len(failures) else shown[:600]
     for f in failures:
         f["count_with_this_key"] = perkey[f["key"]]
     dist["failing_by_key"] = perkey
+    dist["rerun_without_inference_limit"] = n_again
     samples = [{"query": cases[i].query, "impl": info[i][0][:160]} for i in range(0, len(cases), max(1, len(cases) // 10))][:10]
     return {
         "evaluations": len(bools),
         "distinct_nontrivial": sum(1 for c in cases if c.nontrivial),
         "rule": ("every combination of the argument set {-3..5, 2^55-1, 2^55, 2^55+1, 2^64, -2^64, inf, infinite, unbound, a, 1.0, f(x)} for "
-                 "between/3 (all 20 third arguments for integer bounds, 3 representatives otherwise), succ/2 (20^2 + shared variable), length/2 (15 list shapes: proper, partial, improper, non-lists x 20 "
+                 "between/3 (all 20 third arguments for small integer bounds, 14 when a bound is a bignum, 3 representatives when a bound is ill-typed), succ/2 (20^2 + shared variable), length/2 (15 list shapes: proper, partial, improper, non-lists x 20 "
                  "lengths + length(T,T)), numlist/3 (20^2 bounds x 12 list patterns for integer/unbound bounds, 3 patterns otherwise, minus ranges > 1000 and bignum bounds next to an unbound "
-                 "bound); first 20 answers, timeout = non-termination; non-trivial = distinct call whose integer-typed arguments are all "
+                 "bound); first 20 answers; non-termination = call_with_inference_limit/3 reports inference_limit_exceeded after 100000 inferences (queries "
+                 "with an unbound numlist bound) or the 30 s job timeout; non-trivial = distinct call whose integer-typed arguments are all "
                  "integers or unbound (the relation, not only the type-error table, decides the outcome)"),
         "samples": samples,
         "distribution": dist,
